@@ -138,6 +138,15 @@ impl ClientConnection {
             (method, path, version, headers)
         };
 
+        // the peer may have reset the connection before its address could be obtained
+        let remote_addr = match self.remote_addr {
+            Ok(addr) => addr,
+            Err(ref err) => {
+                let err = IoError::new(err.kind(), "peer address unavailable");
+                return Err(ReadError::ReadIoError(err));
+            }
+        };
+
         // building the writer for the request
         let writer = self.sink.next().unwrap();
 
@@ -152,7 +161,7 @@ impl ClientConnection {
             path,
             version.clone(),
             headers,
-            *self.remote_addr.as_ref().unwrap(),
+            remote_addr,
             data_source,
             writer,
         )
